@@ -103,27 +103,40 @@ End Wrap.
 Definition mem_dsel (d : dsel) : dsel := mkD (w64 (d_dim d)) (d_start d) (d_end d) (d_stride d).
 
 (* ------------------------------------------------------------------------------------------------ ADFH *)
-(* per-dimension checks of ADFH_Read_Data / ADFH_Write_Data; the file side compares (hsize_t)s_end with the
-   extent (unsigned), the memory side compares m_end with m_dims as signed numbers *)
-Definition adfh_check1 (unsigned_end : bool) (d : dsel) : option aerr :=
+(* Two variants of ADFH_Read_Data / ADFH_Write_Data are expressible:
+     AdfhCur  the current code (/repo commit 358f914 and later): count = (end - start) / stride + 1, only
+              stride < 1 is BAD_STRIDE_VALUE;
+     AdfhOld  the code before 358f914: count = (end - start + 1) / stride (floor) and stride > extent rejected
+              (kept for the historical witness C05_adfh_stride_refuted). *)
+Inductive adfh_ver := AdfhOld | AdfhCur.
+
+(* per-dimension checks; the file side compares (hsize_t)s_end with the extent (unsigned), the memory side
+   compares m_end with m_dims as signed numbers *)
+Definition adfh_check1 (v : adfh_ver) (unsigned_end : bool) (d : dsel) : option aerr :=
   if d_start d <? 1 then Some StartOut
   else if (d_dim d <? (if unsigned_end then w64 (d_end d) else d_end d)) then Some EndOut
   else if d_end d <? d_start d then Some MinGtMax
-  else if (d_stride d <? 1) || (d_end d - d_start d + 1 <? d_stride d) then Some BadStride
+  else if (d_stride d <? 1) ||
+          (match v with AdfhOld => d_end d - d_start d + 1 <? d_stride d | AdfhCur => false end) then Some BadStride
   else None.
 
-Fixpoint adfh_check (unsigned_end : bool) (ds : list dsel) : option aerr :=
+Fixpoint adfh_check (v : adfh_ver) (unsigned_end : bool) (ds : list dsel) : option aerr :=
   match ds with
   | [] => None
-  | d :: r => match adfh_check1 unsigned_end d with Some e => Some e | None => adfh_check unsigned_end r end
+  | d :: r => match adfh_check1 v unsigned_end d with Some e => Some e | None => adfh_check v unsigned_end r end
+  end.
+
+Definition adfh_count (v : adfh_ver) (d : dsel) : Z :=
+  match v with
+  | AdfhOld => Z.quot (d_end d - d_start d + 1) (d_stride d)
+  | AdfhCur => Z.quot (d_end d - d_start d) (d_stride d) + 1
   end.
 
 (* what is handed to H5Sselect_hyperslab for one dimension: (start, stride, count), block = 1 *)
-Definition adfh_triple (d : dsel) : Z * Z * Z :=
-  (d_start d - 1, d_stride d, Z.quot (d_end d - d_start d + 1) (d_stride d)).
+Definition adfh_triple (v : adfh_ver) (d : dsel) : Z * Z * Z := (d_start d - 1, d_stride d, adfh_count v d).
 
 (* start[ndim-1-n] = ... : the triples (and extents) in HDF5 order *)
-Definition adfh_sel (ds : list dsel) : list (Z * Z * Z) := rev (map adfh_triple ds).
+Definition adfh_sel (v : adfh_ver) (ds : list dsel) : list (Z * Z * Z) := rev (map (adfh_triple v) ds).
 Definition adfh_dims (ds : list dsel) : list Z := rev (map d_dim ds).
 
 (* SPECIFIED semantics of HDF5 (trusted, not transcribed): a regular hyperslab selects the coordinates
@@ -141,10 +154,10 @@ Fixpoint h5_points (ts : list (Z * Z * Z)) : list (list Z) :=
 Definition lin_c (dims idx : list Z) : Z :=
   fold_left (fun acc p => acc * fst p + snd p) (combine dims idx) 0.
 
-Definition adfh_walk (unsigned_end : bool) (ds : list dsel) : aerr + list Z :=
-  match adfh_check unsigned_end ds with
+Definition adfh_walk (v : adfh_ver) (unsigned_end : bool) (ds : list dsel) : aerr + list Z :=
+  match adfh_check v unsigned_end ds with
   | Some e => inl e
-  | None => inr (map (lin_c (adfh_dims ds)) (h5_points (adfh_sel ds)))
+  | None => inr (map (lin_c (adfh_dims ds)) (h5_points (adfh_sel v ds)))
   end.
 
 (* ------------------------------------------------------------------------------------------------ transfer *)
@@ -152,7 +165,18 @@ Definition adfh_walk (unsigned_end : bool) (ds : list dsel) : aerr + list Z :=
 Definition xfer (dst src : list Z) (dpos spos : list Z) : list Z :=
   fold_left (fun acc p => updZ acc (fst p) (nthZ src (snd p) 0)) (combine dpos spos) dst.
 
-Inductive backend := ADF | ADFH.
+(* ADFH = the current ADFH code, ADFH_OLD = ADFH before commit 358f914 *)
+Inductive backend := ADF | ADFH | ADFH_OLD.
+
+Definition adfh_pairs (v : adfh_ver) (sds mds : list dsel) : aerr + list Z * list Z :=
+  match adfh_walk v true sds with
+  | inl e => inl e
+  | inr fw =>
+      match adfh_walk v false mds with
+      | inl e => inl e
+      | inr mw => if negb (Z.of_nat (length fw) =? Z.of_nat (length mw)) then inl UnequalDims else inr (fw, mw)
+      end
+  end.
 
 (* the (file offsets, memory offsets) visited by one cgio_read_data_type / cgio_write_data call, or the error
    the back end returns; the order of the checks is the order of the code *)
@@ -170,15 +194,8 @@ Definition lo_pairs (b : backend) (sds mds : list dsel) : aerr + list Z * list Z
                         walk_loop w64 (Z.to_nat stot) (map mem_dsel mds) (map d_start mds) moff)
           end
       end
-  | ADFH =>
-      match adfh_walk true sds with
-      | inl e => inl e
-      | inr fw =>
-          match adfh_walk false mds with
-          | inl e => inl e
-          | inr mw => if negb (Z.of_nat (length fw) =? Z.of_nat (length mw)) then inl UnequalDims else inr (fw, mw)
-          end
-      end
+  | ADFH => adfh_pairs AdfhCur sds mds
+  | ADFH_OLD => adfh_pairs AdfhOld sds mds
   end.
 
 (* cgio_write_data: file := file with the addressed elements taken from memory; cgio_read_data_type: the
